@@ -207,7 +207,11 @@ func (p *parsing) parseFuncParameters(tok token, isMacro, isResult bool) ([]*ast
 
 	if ellipses.param != nil {
 		if isResult {
-			panic(syntaxError(ellipses.param.Type.Pos(), "cannot use ... in receiver or result parameter list"))
+			pos := tok.pos
+			if ellipses.param.Type != nil {
+				pos = ellipses.param.Type.Pos()
+			}
+			panic(syntaxError(pos, "cannot use ... in receiver or result parameter list"))
 		}
 		if ellipses.param.Type == nil {
 			panic(syntaxError(tok.pos, "final argument in variadic function missing type"))
